@@ -83,6 +83,17 @@ CHECKS = {
         "Trusts vp/treeref.walk_nodes and c16.ref_map (dataclasses.fields order).",
         "DESIGN.md §6 C16",
     ),
+    "C01": (
+        "Hypothesis typed-grammar generation of filters x adversarial rows, executed on real SQLite; differential oracle against an independent reference evaluator (two null readings)",
+        "Well-typed filters of the SQLite fragment (depth <= 4/6, three parenthesisation styles) and 1-6 rows from "
+        "a domain with NULLs, negatives, empty strings and SQL/LIKE metacharacters are generated together; the "
+        "emitted WHERE clause runs on sqlite3 and the selected ids are compared, row by row, with a reference "
+        "evaluator written from the OData specification. Rows on which strict OData null semantics and SQL "
+        "propagation differ, or where the spec leaves the value open (inexact integer division, division by "
+        "zero, negative mod), are undecided and skipped; an exhaustive operator-pair sweep runs in both tiers.",
+        "Trusts vp/evalref.py and Python's sqlite3; LIKE case sensitivity and the datetime storage format are stated preconditions.",
+        "DESIGN.md §6 C01",
+    ),
 }
 
 ALL = ["C%02d" % i for i in range(1, 21)]
